@@ -21,11 +21,22 @@ type Fixture struct {
 	Seed    []byte
 	Names   []string
 	Round   string
+	RoundA  string // the earlier, unrelated round (participants in reverse order)
+	PartsA  []int  // its participants (node indices in participant-id order)
 	Board   []storage.Message
 	Elapsed time.Duration // virtual time the ceremony took; cases sleep this long first
 
 	sharedMu sync.Mutex
 	shared   []*Machine // machines opened once outside any bubble, for signing-only cases
+}
+
+func (f *Fixture) inRoundA(node int) bool {
+	for _, p := range f.PartsA {
+		if p == node && f.RoundA != "" {
+			return true
+		}
+	}
+	return false
 }
 
 // SharedMachines returns machines opened once per process on a private copy of
@@ -54,6 +65,11 @@ func (f *Fixture) SharedMachines() ([]*Machine, error) {
 		}
 		if err := m.M.ReplayOperationsLog(f.Round); err != nil {
 			return nil, fmt.Errorf("replay log of shared machine %d: %w", i, err)
+		}
+		if f.inRoundA(i) {
+			if err := m.M.ReplayOperationsLog(f.RoundA); err != nil {
+				return nil, fmt.Errorf("replay log of shared machine %d (earlier round): %w", i, err)
+			}
 		}
 		ms = append(ms, m)
 	}
@@ -127,20 +143,41 @@ func GetFixture(t *testing.T, n, thr int, seedTag string) (*Fixture, error) {
 		// An earlier, unrelated round on the same nodes and machines: the participants in reverse order (so everybody's
 		// participant id differs between the rounds) and, where n allows, another threshold. Signing-phase cases thus run
 		// on nodes and machines that hold material of two rounds.
-		rev := make([]int, n)
-		for i := range rev {
-			rev[i] = n - 1 - i
+		// (the last participant is left out where n allows: with the same set of participants the two rounds would
+		// share their group key, see finding D6, and a mix-up between the rounds could go unnoticed)
+		na := n
+		if n >= 3 {
+			na = n - 1
 		}
-		thrA := n
-		if thrA == thr {
+		rev := make([]int, na)
+		for i := range rev {
+			rev[i] = na - 1 - i
+		}
+		thrA := na
+		if thrA == thr && na > 2 {
 			thrA = 2
 		}
-		if _, err := w.StartDKG(0, thrA, rev); err != nil {
+		roundA, err := w.StartDKG(0, thrA, rev)
+		if err != nil {
 			ferr = fmt.Errorf("fixture (%d,%d): earlier round: %w", n, thr, err)
 			return
 		}
-		if err := w.Quiesce(60); err != nil {
-			ferr = fmt.Errorf("fixture (%d,%d): earlier round: %w", n, thr, err)
+		for r := 0; r < 80; r++ { // only the invited participants' operators act
+			progress := w.PollAll()
+			for _, i := range rev {
+				k, err := w.AnswerAll(i)
+				if err != nil {
+					ferr = fmt.Errorf("fixture (%d,%d): earlier round: %w", n, thr, err)
+					return
+				}
+				progress += k
+			}
+			if progress == 0 {
+				break
+			}
+		}
+		if s := w.StateOf(0, roundA); s != "stage_signing_idle" {
+			ferr = fmt.Errorf("fixture (%d,%d): earlier round ended in %q", n, thr, s)
 			return
 		}
 		time.Sleep(time.Hour)
@@ -149,7 +186,7 @@ func GetFixture(t *testing.T, n, thr int, seedTag string) (*Fixture, error) {
 			ferr = err
 			return
 		}
-		if err := w.Quiesce(60); err != nil {
+		if err := w.QuiesceRound(round, 60); err != nil {
 			ferr = err
 			return
 		}
@@ -159,7 +196,7 @@ func GetFixture(t *testing.T, n, thr int, seedTag string) (*Fixture, error) {
 				return
 			}
 		}
-		fx = &Fixture{Dir: dir, N: n, T: thr, Seed: w.Seed, Names: w.Names, Round: round, Board: w.Board.All(), Elapsed: time.Since(start) + time.Minute}
+		fx = &Fixture{Dir: dir, N: n, T: thr, Seed: w.Seed, Names: w.Names, Round: round, RoundA: roundA, PartsA: rev, Board: w.Board.All(), Elapsed: time.Since(start) + time.Minute}
 	})
 	if ferr != nil {
 		return nil, ferr
@@ -230,6 +267,12 @@ func (f *Fixture) open(root string, shared bool) (*World, error) {
 		if err := m.M.ReplayOperationsLog(f.Round); err != nil {
 			w.Close()
 			return nil, fmt.Errorf("replay log of machine %d: %w", i, err)
+		}
+		if f.inRoundA(i) {
+			if err := m.M.ReplayOperationsLog(f.RoundA); err != nil {
+				w.Close()
+				return nil, fmt.Errorf("replay log of machine %d (earlier round): %w", i, err)
+			}
 		}
 	}
 	for _, n := range w.Nodes {
